@@ -546,6 +546,8 @@ type op08 struct {
 	Idx      []int  `json:"idx,omitempty"`
 	I        int    `json:"i"`
 	Restores *int   `json:"restores,omitempty"` // usage after this op must equal usage before op #restores
+	Fail     bool   `json:"fail,omitempty"`     // the second plugin fails its SetNodeResourceUsage in this op's commit
+	Direct   bool   `json:"direct,omitempty"`   // drop only: call the plugin's SetNodeResourceUsage directly (reports before/after)
 }
 
 type res08 struct {
@@ -557,6 +559,8 @@ type res08 struct {
 	Usage  nodeRes `json:"usage"`
 	Diffs  int     `json:"diffs"`
 	NPlans int     `json:"nplans"`
+	Before *nodeRes `json:"before,omitempty"` // Before/After reported by the cpumem plugin, where observable
+	After  *nodeRes `json:"after,omitempty"`
 }
 
 type case08 struct {
@@ -575,6 +579,16 @@ type live08 struct {
 
 // the next operation of a generated history, given the current live set
 func genOp08(r *hx.Rng, c nodeRes, live []live08, hist []op08, lastOK bool) op08 {
+	op := genOp08base(r, c, live, hist, lastOK)
+	if r.Chance(12) { // another plugin fails in this operation's commit
+		op.Fail = true
+	} else if op.Op == "drop" && r.Chance(40) {
+		op.Direct = true
+	}
+	return op
+}
+
+func genOp08base(r *hx.Rng, c nodeRes, live []live08, hist []op08, lastOK bool) op08 {
 	n := len(live)
 	last := ""
 	if len(hist) > 0 {
@@ -660,6 +674,9 @@ func (f *fixture) runC08(c *case08, next func(live []live08, hist []op08, lastOK
 		return
 	}
 	defer f.cm.RemoveNode(f.ctx, name) //nolint
+	f.x0.setCap(name, &plugintypes.NodeDeployCapacity{Capacity: math.MaxInt, Weight: 1})
+	defer f.x0.setCap(name, nil)
+	defer f.x0.setFail(false)
 	live := []live08{}
 	var undo *struct {
 		idx    int
@@ -675,6 +692,7 @@ func (f *fixture) runC08(c *case08, next func(live []live08, hist []op08, lastOK
 		res := res08{}
 		var err error
 		kind := ""
+		f.x0.setFail(op.Fail)
 		switch op.Op {
 		case "alloc":
 			if op.Req.Bind {
@@ -684,7 +702,7 @@ func (f *fixture) runC08(c *case08, next func(live []live08, hist []op08, lastOK
 			var ws []resourcetypes.Resources
 			kind, _ = hx.Guard(20*time.Second, func() {
 				err = retry(func() (e error) {
-					ws, _, e = f.mgr.Alloc(f.ctx, name, op.K, resourcetypes.Resources{"cpumem": op.Req.raw()})
+					ws, _, e = f.mgr2.Alloc(f.ctx, name, op.K, resourcetypes.Resources{"cpumem": op.Req.raw()})
 					return
 				})
 			})
@@ -710,7 +728,29 @@ func (f *fixture) runC08(c *case08, next func(live []live08, hist []op08, lastOK
 					keep = append(keep, l)
 				}
 			}
-			kind, _ = hx.Guard(60*time.Second, func() { err = retry(func() error { return f.mgr.RollbackAlloc(f.ctx, name, pick) }) })
+			kind, _ = hx.Guard(60*time.Second, func() {
+				err = retry(func() error {
+					if op.Direct && !op.Fail { // the plugin itself: it reports Before/After
+						raws := []plugintypes.WorkloadResource{}
+						for _, p := range pick {
+							raws = append(raws, p["cpumem"])
+						}
+						resp, e := f.cm.SetNodeResourceUsage(f.ctx, name, nil, nil, raws, true, false)
+						if e == nil {
+							b, a := nodeResOf(resp.Before), nodeResOf(resp.After)
+							res.Before, res.After = &b, &a
+						}
+						return e
+					}
+					// what RollbackAlloc does; cobalt hands back cpumem's Before/After when another plugin failed
+					before, after, e := f.mgr2.SetNodeResourceUsage(f.ctx, name, nil, nil, pick, true, false)
+					if e != nil && before["cpumem"] != nil && after["cpumem"] != nil {
+						b, a := nodeResOf(before["cpumem"]), nodeResOf(after["cpumem"])
+						res.Before, res.After = &b, &a
+					}
+					return e
+				})
+			})
 			if kind == "" && err == nil {
 				live = keep
 			}
@@ -724,7 +764,7 @@ func (f *fixture) runC08(c *case08, next func(live []live08, hist []op08, lastOK
 			var delta, nw resourcetypes.Resources
 			kind, _ = hx.Guard(20*time.Second, func() {
 				err = retry(func() (e error) {
-					_, delta, nw, e = f.mgr.Realloc(f.ctx, name, live[op.I].raw, resourcetypes.Resources{"cpumem": op.Req.raw()})
+					_, delta, nw, e = f.mgr2.Realloc(f.ctx, name, live[op.I].raw, resourcetypes.Resources{"cpumem": op.Req.raw()})
 					return
 				})
 			})
@@ -746,7 +786,7 @@ func (f *fixture) runC08(c *case08, next func(live []live08, hist []op08, lastOK
 			}
 			u := undo
 			undo = nil
-			kind, _ = hx.Guard(60*time.Second, func() { err = retry(func() error { return f.mgr.RollbackRealloc(f.ctx, name, u.delta) }) })
+			kind, _ = hx.Guard(60*time.Second, func() { err = retry(func() error { return f.mgr2.RollbackRealloc(f.ctx, name, u.delta) }) })
 			if kind == "" && err == nil {
 				live[u.idx] = u.origin
 			}
